@@ -538,7 +538,15 @@ where
                     return Ok(());
                 }
             }
-            Err(StoreError::NotFound) => {}
+            Err(StoreError::NotFound) => {
+                // If the header above the batch is synced but no longer stored, then it was
+                // pruned. `Pruner` never removes a header that borders an unsynced gap while
+                // it is inside the sampling window, so that header, and everything below it,
+                // is already outside of the sampling window.
+                if synced_ranges.contains(next_batch.end() + 1) {
+                    return Ok(());
+                }
+            }
             Err(e) => return Err(e.into()),
         }
 
